@@ -23,7 +23,9 @@ Definition b64_alphabet (c : N) : bool :=
 (* 0000-01-01T00:00:00Z .. Timestamp::MAX (the years the four-digit form can print) *)
 Definition ts_wf (z : Z) : bool := (-62167219200 <=? z / ns_per_s) && (z / ns_per_s <=? ts_max_s).
 Definition uuid_wf (u : list N) : bool := Nat.eqb (length u) 32 && forallb (fun v => (v <? 16)%N) u.
-Definition rx_wf (rx_ok : list N -> bool) (r : list N) : bool := is_wrapped r && rx_ok r.
+(* a Regex value built by the deserialiser: the wrapped text of a pattern that compiles on its own
+   and inside the wrapper *)
+Definition rx_wf (rx_ok : list N -> bool) (r : list N) : bool := is_wrapped r && rx_ok r && rx_ok (peel_s r).
 
 Fixpoint cf_wf (rx_ok : list N -> bool) (f : cfilter) : bool :=
   match f with
